@@ -6,6 +6,7 @@
            ops (sent by a client that does not read): [1 n] n PINGs  [2 n] n PING acks  [3 n] n SETTINGS
            [4 n sid] n DATA frames (1 byte) on the never-opened stream sid  [5 sid] request on new stream sid whose
            handler writes its response HEADERS and blocks  [6 sid] RST_STREAM for sid
+           [8 sid] WINDOW_UPDATE(sid, 2^31-1): overflows the window of an open stream (server resets it), ignored otherwise
            [7] (last) the client starts reading again, sends a marker PING and reports the control frames it receives
                (skipped when closed or when `limit` frames are queued: the marker itself would cross the limit);
                it waits until the blocked handlers' HEADERS frames have arrived too and is followed by one more sample
@@ -39,7 +40,7 @@ Definition drain (limit : Z) (c : conn) : conn :=
 (* decoded client operations *)
 Inductive cop :=
 | CFlood (kind n sid : Z)     (* kind 1 PING, 2 PING ack, 3 SETTINGS, 4 DATA on unknown stream sid *)
-| COpen (sid : Z) | CRst (sid : Z) | CDrain.
+| COpen (sid : Z) | CRst (sid : Z) | COverflow (sid : Z) | CDrain.
 
 Definition dec_cop (v : val) : option cop :=
   match v with
@@ -49,6 +50,7 @@ Definition dec_cop (v : val) : option cop :=
   | VL [VZ 4; VZ n; VZ sid] => Some (CFlood 4 n sid)
   | VL [VZ 5; VZ sid] => Some (COpen sid)
   | VL [VZ 6; VZ sid] => Some (CRst sid)
+  | VL [VZ 8; VZ sid] => Some (COverflow sid)
   | VL [VZ 7] => Some CDrain
   | _ => None
   end.
@@ -61,6 +63,7 @@ Definition apply_cop (limit : Z) (o : cop) (st : conn * Z) : conn * Z :=
   | CFlood kind n sid => rep_events limit n (flood_event kind sid) st
   | COpen sid => (iteration limit (iteration limit (fst st) ENop) (EHandlerFrame sid 1), snd st)
   | CRst sid => (iteration limit (fst st) (ERstStream sid), snd st)
+  | COverflow sid => (iteration limit (fst st) (EWindowOverflow sid), snd st)
   | CDrain => st
   end.
 
